@@ -31,7 +31,7 @@
    sliced or too long): after a difference fetch that completes, every log entry up to the
    horizon has reached the handler, unless its gap was reported through the too-long callback. *)
 From Coq Require Import ZArith List Bool Lia.
-From TD Require Import Gen.GapCheck Model.SeqBox Model.UpdMgr Model.UpdMgrOld Proof.SeqBox Proof.UpdMgr.
+From TD Require Import Gen.GapCheck Model.SeqBox Model.UpdMgr Model.UpdMgrOld Proof.SeqBox Proof.UpdMgr Proof.SeqBoxZero.
 Import ListNotations.
 Open Scope Z_scope.
 
@@ -213,3 +213,24 @@ Proof.
     cbn [vis_ok nv_ops mid_ok]. repeat split; try (apply H3; vm_compute; discriminate);
       try (vm_compute; discriminate); try (intros _; vm_compute; split; discriminate).
 Qed.
+
+(* Updates that consume no position (pts_count = 0 at the current pts: web page / read mark
+   style).  wf_log above speaks about entries with a positive count, which a difference can
+   return; a zero-count update is returned by no difference, so its push is its only delivery:
+   a sequence box that is in sync applies it (delivered alone, position unchanged), and
+   checkGap never classifies it as outdated or as a gap.  (Seeded change C02-4 breaks exactly
+   this; harness corpus: the zero-count in-sync histories.) *)
+Theorem C02_zero_count_in_sync_delivered : forall st u,
+  ucnt u = 0 -> ust u = st ->
+  handle (box_init st) u = (box_init st, [Dlv st [u]]).
+Proof. exact handle_zero_count_in_sync. Qed.
+Print Assumptions C02_zero_count_in_sync_delivered.
+
+Theorem C02_zero_count_never_outdated : forall st,
+  check_gap_go st st 0 <> c_gapIgnore /\ check_gap_go st st 0 <> c_gapRefetch.
+Proof. exact zero_count_at_position_not_ignored. Qed.
+Print Assumptions C02_zero_count_never_outdated.
+
+Example C02_zero_count_nonvacuous :
+  handle (box_init 7) {| uid := 2; ust := 7; ucnt := 0 |} = (box_init 7, [Dlv 7 [{| uid := 2; ust := 7; ucnt := 0 |}]]).
+Proof. vm_compute. reflexivity. Qed.
